@@ -59,7 +59,7 @@ structure State where
   props : AMap Prop'
   deriving DecidableEq, Repr
 
-inductive TKind | progress | terminated | finalized
+inductive TKind | progress | terminated | finalized | common | rejected
   deriving DecidableEq, Repr
 
 inductive Tx
@@ -132,6 +132,11 @@ def checkTrack (p : Prop') (k : TKind) (stage : Nat) : Option String :=
     else none
   | .terminated => if stage ≠ 0 then some "stage" else none
   | .finalized => if stage ≠ finalStage p.budgets then some "stage" else none
+  | .common => if stage ≠ 0 then some "stage" else none
+  | .rejected =>
+    if stage ≥ p.budgets.length then some "stage"
+    else if p.budgets.any (fun b => b.stage = stage ∧ b.w) then some "stage"
+    else none
 
 def checkWithdraw (P : Params) (p : Prop') (amount : Int) : Option String :=
   if p.status ≠ .voterAgreed ∧ p.status ≠ .finished ∧ p.status ≠ .aborted ∧ p.status ≠ .terminated then some "status"
@@ -176,6 +181,8 @@ def unusedOf (p0 : Prop') : TKind → Int
     if p0.status = .terminated ∨ p0.status = .finished then 0
     else (p0.budgets.filter (fun b => ¬ b.w)).foldr (fun b acc => b.amount + acc) 0
   | .finalized => (p0.budgets.filter (fun b => b.typ ≠ .final ∧ ¬ b.w)).foldr (fun b acc => b.amount + acc) 0
+  | .common => 0
+  | .rejected => 0
 
 def setVote (m : Nat) (a : Bool) : List (Nat × Bool) → List (Nat × Bool)
   | [] => [(m, a)]
@@ -190,6 +197,8 @@ def propStep (_h : Nat) (p0 : Prop') : Tx → Prop' → Prop'
     | .terminated =>
       if p0.status = .terminated ∨ p0.status = .finished then p else { p with status := .terminated }
     | .finalized => { p with status := .finished, budgets := setWFirst .final p.budgets }
+    | .common => p      -- only TrackingCount
+    | .rejected => p    -- only BudgetsStatus
   | .withdraw _ amount, p => { p with budgets := markWn (withdrawing p0.budgets) p.budgets, paid := p.paid + amount }
   | _, p => p
 
